@@ -214,6 +214,8 @@ class FnContract:
                     cls = fresh('exc', t.INT)
                     if names:
                         s2.assume(t.or_(*[t.eq(cls, I(eng.src.exc_code[eng.src.exc_canon(n)])) for n in names]))
+                    else:
+                        s2.assume(eng.exc_sub_term(cls, 'Exception'))
                 pathv = bound[case.path] if case.path else VDyn(fresh('excpath', t.VAL))
                 ex = VExc(cls, pathv, origin='raised by %s [%s]' % (self.qual, case.name), explicit_path=bool(case.path))
                 post.exc = ex
